@@ -1381,6 +1381,9 @@ func engineC19Search(ctx *Ctx) {
 			if r.Intn(15) == 0 {
 				q = []string{"", "?!", "a", strings.ToUpper(q)}[r.Intn(4)]
 			}
+			if r.Intn(7) == 0 {
+				q = vlib.WithOddCase(r, q)
+			}
 			o := vlib.RandomOptions(r, N, words)
 			if qi%3 != 2 { // two thirds at Limit >= N (the active clauses are stated there)
 				o.Limit = []int{N, N + 7, 5 * N}[r.Intn(3)]
